@@ -1537,9 +1537,11 @@ def chunks(L, k):
 
 
 def cases(tier, seed, flavour):
-    th = tier == 'thorough'
-    red = flavour == 'asan' and not th            # reduced domain on the sanitizer build of the quick tier
     san = flavour == 'asan'
+    red = san and tier != 'thorough'              # reduced domain on the sanitizer build of the quick tier
+    if san and tier == 'thorough':
+        tier = 'quick'                            # ... and the quick domain on the sanitizer build of the thorough tier
+    th = tier == 'thorough'
     # ---- 0. fixed small / empty matrices: construction (safe first case for the determinism gate)
     yield {'p': 'ctor', 'descs': [[f[0], f[1], tc, f[2]] for f in FIXED for tc in 'dz']}
     # ---- 1. single-operation cases that kill the interpreter / read outside the matrix on the unchanged tree
@@ -1566,7 +1568,11 @@ def cases(tier, seed, flavour):
             d = [f[0], f[1], tc, f[2]]
             yield {'p': 'unary', 'descs': [d]}
             yield {'p': 'binary', 'A': [d], 'tcb': 'dz', 'tier': 'thorough'}
-            yield {'skip_empty1': san, 'p': 'index', 'A': d, 'level': 'small', 'vks': list(VK_ALL), 'get': True}
+            if red:
+                yield {'skip_empty1': san, 'p': 'index', 'A': d, 'level': 'tiny', 'vks': list(VK_QUICK), 'get': True}
+            else:
+                for gi, grp in enumerate(chunks(list(VK_ALL), 4)):
+                    yield {'skip_empty1': san, 'p': 'index', 'A': d, 'level': 'small', 'vks': grp, 'get': gi == 0}
             yield {'p': 'gemv', 'descs': [d]}
             if f[0] == f[1] and tc == 'd':
                 yield {'p': 'symv', 'descs': [d]}
@@ -1600,7 +1606,8 @@ def cases(tier, seed, flavour):
                     yield {'skip_empty1': san, 'p': 'index', 'A': [m, n, tc, p], 'level': 'tiny', 'vks': list(VK_QUICK), 'get': True}
             if th:
                 for p in P2:
-                    yield {'skip_empty1': san, 'p': 'index', 'A': [m, n, tc, p], 'level': 'small', 'vks': list(VK_ALL), 'get': True}
+                    for gi, grp in enumerate(chunks(list(VK_ALL), 4)):
+                        yield {'skip_empty1': san, 'p': 'index', 'A': [m, n, tc, p], 'level': 'small', 'vks': grp, 'get': gi == 0}
     # ---- 6. selected matrices x full index-expression domains
     sel = SEL[:1] if red else (SEL if th else SEL[:2])
     for d in sel:
@@ -1614,7 +1621,7 @@ def cases(tier, seed, flavour):
                     yield {'skip_empty1': san, 'p': 'index2', 'A': d, 'rk': rk, 'ck': ck, 'rl': rl, 'cl': 'mid', 'vks': [vk], 'get': False}
         for lk in 'lm':
             for ok in 'islm':
-                for vks, get in (([], True), (['num'], False), (['dfit'], False), (['sfit'], False)):
+                for vks, get in ((([], True), (['num'], False)) if red else (([], True), (['num'], False), (['dfit'], False), (['sfit'], False))):
                     yield {'skip_empty1': san, 'p': 'index2', 'A': d, 'rk': lk, 'ck': ok, 'rl': 'full', 'cl': 'small', 'vks': vks, 'get': get}
                     yield {'skip_empty1': san, 'p': 'index2', 'A': d, 'rk': ok, 'ck': lk, 'rl': 'small', 'cl': 'full', 'vks': vks, 'get': get}
     if th:
